@@ -326,3 +326,24 @@ Theorem hello_keeps_queue_refuted :
     cl_t (st_cl st) = [1; 1 + 4294967296; 1; 0] /\ cl_q (st_cl st) = 4 + 65536.
 Proof. exact C09Proofs.hello_keeps_queue_refuted_lemma. Qed.
 Print Assumptions hello_keeps_queue_refuted.
+
+(* shallow clocks after a Sync(): RemoteSync did not update lastPushData, so the
+   reply of the next mutation is a diff against the older belief; the shallow
+   checksums (client: number of tracked states + queue tick; server: number of
+   active states + queue tick) coincide and the wrong diff is ACCEPTED - wrong
+   parity and queue tick, no Sync requested, stale for ever *)
+Theorem shallow_stale_belief_refuted :
+  exists (p : pcfg) (s0 a b : snap),
+    p_mut p = false /\ shallow (p_codec p) = true /\
+    cfg_wf (p_codec p) (length (s_time s0)) = true /\
+    chain_in_range s0 [a; b] = true /\ s_m s0 = 0 /\
+    let st1 := exec p (init p s0) [Src a; SyncReq; Settle] in
+    let st := exec p st1 [Src b; Reply; Write; Settle] in
+    mirror_ok (p_codec p) (s_time a) (cl_t (st_cl st1)) = true /\
+    quiescent st = true /\ st_err st = false /\
+    st_rejpush st = false /\ cl_need (st_cl st) = false /\ st_synced st = st_synced st1 /\
+    cl_q (st_cl st) <> s_q b /\
+    mirror_ok (p_codec p) (s_time b) (cl_t (st_cl st)) = false /\
+    forall n, exec p st (concat (repeat [Push; Settle] n)) = st.
+Proof. exact C09Proofs.shallow_stale_belief_refuted_lemma. Qed.
+Print Assumptions shallow_stale_belief_refuted.
